@@ -42,7 +42,7 @@ def replay_scenarios(ck, binary, name, scenarios):
 
 
 def run(ck, tier):
-    binary = vf.build_harness("serial", "release")
+    binary = vf.build_harness("serde")
     thorough = tier == "thorough"
     # (1) design level: refinement of the code-shaped model, exhaustive at small scope
     for cfg in ["MCReadAdapter.cfg", "MCReadAdapter_scaled.cfg"]:
@@ -79,6 +79,6 @@ def run(ck, tier):
 
 
 def replay(ck, path):
-    binary = vf.build_harness("serial", "release")
+    binary = vf.build_harness("serde")
     obj = json.load(open(path))
     replay_scenarios(ck, binary, "replay", [obj["replay"]["scenario"]])
